@@ -35,6 +35,72 @@ class VClock(object):
             self.now += t
 
 
+class Stall(object):
+    """From device frame `frame` on, the device stops sending what the host is waiting for.
+
+    kind: silence | eof | trickle (first j bytes of the awaited frame, one per 0.9 x timeout, then silence) |
+          other (endless traffic for another stream) | unexpected (endless SYNC packets carrying this stream's ids)"""
+
+    def __init__(self, spec):
+        self.frame = spec['frame']
+        self.kind = spec['kind']
+        self.j = spec.get('j', 1)
+        self.active = False
+        self.t0 = None
+        self.calls0 = None
+        self.buf = bytearray()
+        self.ids = (0, 0)
+        self.sent = 0
+
+    def timeout(self, env, timeout):
+        from adb_shell.exceptions import TcpTimeoutException
+        if timeout is None:
+            raise Hang('bulk_read(timeout=None) while the device is stalled')
+        env.clock.advance(timeout)
+        raise TcpTimeoutException('sim: read timed out after %r s (stalled device)' % (timeout,))
+
+    def read(self, env, n, timeout):
+        if not self.active:
+            if env.wire or env.frames_seen < self.frame:
+                return None
+            if env.frames_seen == self.frame and not env.dev.ready_queues(env.clock.now) and self.kind in ('trickle', 'unexpected'):
+                return None                   # the awaited frame does not exist yet (host has to write first)
+            self.active = True
+            self.t0 = env.clock.now
+            self.calls0 = env.calls
+            if self.kind in ('trickle', 'unexpected'):
+                fr = env._frame()
+                if fr is not None:
+                    self.ids = (int.from_bytes(fr[4:8], 'little'), int.from_bytes(fr[8:12], 'little'))
+                    if self.kind == 'trickle':
+                        j = self.j if self.j >= 0 else len(fr) + self.j
+                        self.buf = bytearray(fr[:max(0, min(j, len(fr) - 1))])
+        k = self.kind
+        if k == 'silence':
+            return self.timeout(env, timeout)
+        if k == 'eof':
+            return b''
+        if k == 'trickle':
+            if not self.buf:
+                return self.timeout(env, timeout)
+            env.clock.advance(0.9 * timeout if timeout else 0.0)
+            out = bytes(self.buf[:1])
+            del self.buf[:1]
+            return out
+        if k in ('other', 'unexpected'):
+            if not self.buf:
+                if k == 'other':
+                    data = b'noise%d' % self.sent
+                    self.buf += frames.encode(b'WRTE', 0x6666, 0x7777, data) + data
+                else:
+                    self.buf += frames.encode(b'SYNC', self.ids[0], self.ids[1])
+                self.sent += 1
+            out = bytes(self.buf[:n])
+            del self.buf[:n]
+            return out
+        raise HarnessError('unknown stall kind %r' % (k,))
+
+
 class Env(object):
     def __init__(self, ch, cfg, eps=0.0, frag=False, wcap=False, order_budgeted=False, max_calls=200000):
         self.ch = ch
@@ -61,7 +127,7 @@ class Env(object):
         self.host_bytes = 0
         self.wcap_global = cfg.get('wcap_global')
         self.eof = False
-        self.stall = None
+        self.stall = Stall(cfg['stall']) if cfg.get('stall') else None
         self.sched = None         # thread scheduler / vloop gate
         self.timeouts = []        # timeout values passed to bulk_read/bulk_write
         self.make_auth = None
